@@ -20,6 +20,8 @@ BINARIES = {
     "c19": ("zzverif/cmd/c19", False),
     "flow": ("zzverif/cmd/flow", False),
     "nf5": ("zzverif/cmd/nf5", False),
+    "crash": ("zzverif/cmd/crash", False),
+    "sflowc": ("zzverif/cmd/sflowc", False),
 }
 
 
@@ -79,6 +81,81 @@ def c08(tier):
                   rule="v5.rec: version {5,0,9,10,0x0500} x count {1,2,29,30,0,31,65535} x datagram length {0..24, exact-48, exact-1, exact, exact+1, exact+48} x 61 content fills (position-unique, all-ones, all-zero, and per header/record field an all-ones one-hot and a low-bit pattern); v5.pairs: all ordered pairs of one-hot record fields in either record of a 2-flow packet. "
                        "Non-trivial = packet with a complete 24-octet header; distinct = distinct wire octets.",
                   assumptions=["field offsets/widths of the reference are transcribed from the Cisco NetFlow v5 export format", "JSON key names are those of the published format (the Go field names)"], t0=t0)
+
+
+@check("C09")
+def c09(tier):
+    t0 = time.time()
+    b = build("flow")
+    res = [run_space(b, "ipfix.perturb", tier), run_space(b, "v9.perturb", tier)]
+    return finish("C09", tier, res,
+                  rule="5 base messages (2-3 data sets over 4 templates incl. variable-length fields, an options template, and octet-array contents that look like a set header of a known template) x insertion position 0..n x one undecodable set: every reserved id (IPFIX 4..255, v9 2..255), unknown template ids {256,999,65535}, data sets of two templates naming an element absent from the model (scope / non-scope), bodies of 0..9 octets and a body that is itself a valid set; templates pre-announced or in-message; "
+                       "then every truncation offset 0..len of every base and perturbed message (counter 'truncations'). Quick: every id with 3 bodies and 7 boundary ids with all 11 bodies; thorough: all ids x all bodies. Non-trivial = every case; distinct = wire octets x template placement.",
+                  assumptions=FLOW_ASSUME + ["IPFIX set ids 0 and 1 ('not used', RFC 7011 3.3.2) are not counted among the reserved ids",
+                                             "the records of the complete datagram used by the truncation oracle are the implementation's own decode of it (differential), its correctness is C03/C06"], t0=t0)
+
+
+CRASH_SPACES = ["ipfix.grammar", "ipfix.mutate", "ipfix.history", "v9.grammar", "v9.mutate", "v9.history", "v5.grammar", "v5.mutate",
+                "sflow.grec", "sflow.graw", "sflow.ghdr", "sflow.mutate"]
+CRASH_RULE = ("per protocol: grammar spaces (every set id / length-field mode / body from a boundary alphabet incl. ~500 template-record bodies with field count, scope count, element id and field length in {0,1,2,4,65535,...}; two-set datagrams; template+data in one datagram; sFlow: every record type x declared length 0..32 and extremes x actual length, raw-header protocol x header length 0..64,1498..1503,2^31,2^32-1 x ethertype x IHL x L4; datagram header fields x sample count x tag x length), "
+              "mutation closure of well-formed seeds (every truncation, every single-octet substitution with {00,01,7f,80,ff,v+1,v-1}; thorough: every pair of positions in the first 64 octets), "
+              "and template-cache histories (explicit-state: every pair of template announcements for two ids from the adversarial template alphabet = every cache state over those ids, then every data datagram of the data alphabet from every state; 3 exporter address forms). "
+              "Non-trivial = non-empty datagram (grammar/mutation) / distinct canonical cache state (history); distinct by FNV-64 of the octets / of the canonical state.")
+
+
+def crash_check(pid, tier, alloc):
+    t0 = time.time()
+    b = build("crash")
+    args = ["-alloc"] if alloc else []
+    res = []
+    for sp in CRASH_SPACES:
+        r = run_space(b, sp, tier, hang_s=15, as_bytes=3 << 30, args=args)
+        if sp.endswith(".history"):
+            r.states = r.nontrivial
+        res.append(r)
+    assume = ["decode + JSON encoding is called exactly as the protocol's worker does (Decoder.Decode then JSONMarshal / json.Marshal); the worker loop itself is covered by C12/C13",
+              "small-scope: datagrams up to a few hundred octets (one 65507-octet NetFlow v5 case); templates for two ids",
+              "a panic is caught in-process; a fatal error, an out-of-memory kill (RLIMIT_AS 3 GiB) or 15 s without progress on a microsecond-scale case is re-run alone twice before it is reported"]
+    if alloc:
+        assume += ["allocation = runtime.MemStats.TotalAlloc delta around one decode+encode in a single-goroutine worker (exact: ReadMemStats flushes allocation caches); bound 64 KiB + 1024 B per received octet (largest legitimate case measured: 203 B/octet, 78 KB); a watchdog aborts a decode that exceeds 64x the bound",
+                   "records <= octets is checked on every case"]
+    return finish(pid, tier, res, rule=CRASH_RULE, assumptions=assume, t0=t0)
+
+
+@check("C01")
+def c01(tier):
+    return crash_check("C01", tier, False)
+
+
+@check("C02")
+def c02(tier):
+    return crash_check("C02", tier, True)
+
+
+SF_ASSUME = ["reference encoder/expected tree written from the sFlow v5 specification and RFC 791/8200/9293/768/792 (zzverif/ref/sflowgen.go)",
+             "JSON key names are those of the published format; ColTime (wall clock) is removed before comparison",
+             "well-formed input only: sampled header complete up to the transport header, ethertype IPv4/IPv6 (optionally 802.1Q tagged), L4 TCP/UDP/ICMP(v6), no duplicate record type within a sample (the decoded structure is a map), TCP reserved bits zero",
+             "field semantics where the published struct is narrower than the wire: SourceID = source type octet; ICMP RestHeader = sampled octets after the checksum; TCP Flags = 9 bits"]
+
+
+@check("C07")
+def c07(tier):
+    t0 = time.time()
+    b = build("sflowc")
+    res = [run_space(b, sp, tier) for sp in ["sflow.seq", "sflow.flowrec", "sflow.counterrec", "sflow.onehot", "sflow.frames", "sflow.hdrlen"]]
+    return finish("C07", tier, res,
+                  rule="seq: every sample sequence of length 0..3 over a 14-sample alphabet (flow samples with raw/ext-switch/ext-router/unknown records, counter samples with all six counter blocks and unknown records, unknown sample formats 3/4/5, a vendor sample) x IPv4/IPv6 agent; flowrec/counterrec: every ordered selection of <=3 distinct record types (flowrec x all 27 frame shapes); onehot: every field of every record, sample header and datagram header all-ones alone; frames: 27 frame shapes (Ethernet/802.1Q/raw IPv4/raw IPv6 x IPv4, IPv4+options, IPv6 x TCP/UDP/ICMP) x every L2/L3/L4 field all-ones alone; hdrlen: six frame shapes x every sampled header length up to 1500 (XDR padding 0..3). Non-trivial = every case; distinct = wire octets.",
+                  assumptions=SF_ASSUME, t0=t0)
+
+
+@check("C18")
+def c18(tier):
+    t0 = time.time()
+    b = build("sflowc")
+    res = [run_space(b, "sflow.filter", tier)]
+    return finish("C18", tier, res,
+                  rule="every sample sequence of length 0..3 over {flow{raw}, flow{sw}, flow{}, counter{gen}, counter{vg,vlan,proc}, unknown3, unknown4, vendor} x 12 filter lists ([], [1], [2], [3], [1,2], [2,3], [1,3], [1,2,3], [0], [7], [vendor tag], [2^32-1]); oracle: reference tree without the listed types AND the implementation's own unfiltered decode with exactly the listed types removed. Non-trivial = every case.",
+                  assumptions=SF_ASSUME, t0=t0)
 
 
 def main(argv):
